@@ -102,6 +102,9 @@ func (k *c04) RunCase(c *core.Ctx, i int) {
 	o.SelfBook = r.Intn(4) == 0
 	o.Prices = r.Intn(4) == 0
 	j, _ := gen.Accepted(r, o)
+	if r.Intn(8) == 0 {
+		gen.ShiftFar(r, j, 4)
+	}
 	if r.Intn(2) == 0 {
 		j.Shuffle(r)
 	}
